@@ -49,6 +49,7 @@ type GenOpts struct {
 	Sparse                 bool // files randomly lack whole definition kinds (no enum / no const / no service / no typedef)
 	PkgClash               bool // two included files whose go namespaces end in the same word (import alias needed)
 	TypedefOnlyStructs     bool // typedefs only of struct-likes (for use_type_alias=false, which breaks typedef'd scalars)
+	MoreServices           bool // 2-3 services per file
 	TypedefEnumSel         bool // enum values selected through a typedef (Typedef.VALUE): accepted by the analyser, rejected by the Go backend
 }
 
@@ -1073,7 +1074,11 @@ func Generate(rng *vlib.Rng, o GenOpts) *Program {
 			g.addDefaults(f)
 		}
 		if o.Services && !sparse() {
-			for k := rng.Range(1, 2); k > 0; k-- {
+			nsv := rng.Range(1, 2)
+			if o.MoreServices {
+				nsv = rng.Range(2, 3)
+			}
+			for k := nsv; k > 0; k-- {
 				sv := g.genService(f)
 				if sharedNS[f] != nil && sv.Extends == nil {
 					// a base service in another IDL file of the same Go package
